@@ -5,7 +5,7 @@
 (*  The tables are finite: equality with the documented ones by evaluation.*)
 (* ====================================================================== *)
 From Coq Require Import String Ascii List ZArith QArith Bool Arith Lia.
-From TK Require Import Cli_Model Cli_Spec Cli_Proof_Decide Cli_Proof_Main Cli.
+From TK Require Import Cli_Model Cli_Spec Cli_Proof_Decide Cli_Proof_Main Cli_Proof_Exit Cli.
 Import ListNotations.
 Local Close Scope Q_scope.
 Local Open Scope string_scope.
@@ -113,3 +113,21 @@ Theorem gen_defaults : forall ps io, cli_decide gen_tables [] = Run ps io ->
   assoc "num_neighbors" ps = Some (VInt 10) /\
   assoc "spe_global_strategy" ps = Some (VBool true).
 Proof. rewrite gen_tables_doc. exact defaults_are_literals. Qed.
+
+(* complete characterisation of the exit status before the library is called *)
+Theorem gen_exit_iff : forall a,
+  cli_decide gen_tables a = Exit 1%Z <->
+  (args_ok doc_options a = false \/ flag (view_of a) ["h"; "help"] = true \/
+   bad_input (view_of a) \/ bad_strategy (view_of a)).
+Proof. intro a. rewrite gen_decide_spec. apply spec_exit_iff. Qed.
+
+(* a command line cxxopts accepts, without --help and without any of the invalid inputs, reaches the library *)
+Theorem gen_valid_runs : forall a,
+  args_ok doc_options a = true -> flag (view_of a) ["h"; "help"] = false ->
+  ~ bad_input (view_of a) -> ~ bad_strategy (view_of a) ->
+  exists ps io, cli_decide gen_tables a = Run ps io.
+Proof.
+  intros a Hok Hh Hb Hs.
+  destruct (gen_outcomes a) as [H|H]; [|exact H].
+  exfalso. apply gen_exit_iff in H. destruct H as [H|[H|[H|H]]]; congruence || tauto.
+Qed.
